@@ -575,10 +575,33 @@ func (e *verifEngine) action(f []string) {
 			if f[2] != "1" {
 				al.Result = protocol.RESULT_ERROR
 			}
+			// the event enters through the channel's own entry points -- AofChannel.Acked (a follower's reply, as
+			// ReplicationClientChannel hands it over) / AofChannel.AofAcked (the flush of the leader's own file) --
+			// and is taken off the channel queue again at once; what AofChannel.Handle does with it then
+			// (HandleAcked / HandleAofAcked: decode, look the ack DB up, Process...; free the AofLock) is
+			// transcribed, with the harness's ack DB in the place of replicationManager.GetAckDB
 			if len(f) > 3 && f[3] == "acked" {
-				_ = e.ackdb.ProcessLeaderAcked(0, al)
+				rc := &protocol.LockResultCommand{}
+				rc.CommandType = protocol.COMMAND_LOCK
+				rc.RequestId = al.GetAofId()
+				rc.Result = al.Result
+				_ = e.aofch.Acked(rc)
+				e.aofch.queueGlock.Lock()
+				ql := e.aofch.pullAofLock()
+				e.aofch.queueGlock.Unlock()
+				_ = e.ackdb.ProcessLeaderAcked(0, ql)
+				e.aofch.freeAofLock(ql)
 			} else {
-				_ = e.ackdb.ProcessLeaderAofed(0, al)
+				al.CommandType = protocol.COMMAND_LOCK
+				_ = al.Encode()
+				_ = e.aofch.AofAcked(al.buf, al.Result == protocol.RESULT_SUCCED)
+				e.aofch.queueGlock.Lock()
+				ql := e.aofch.pullAofLock()
+				e.aofch.queueGlock.Unlock()
+				if ql.Decode() == nil {
+					_ = e.ackdb.ProcessLeaderAofed(0, ql)
+				}
+				e.aofch.freeAofLock(ql)
 			}
 		} else {
 			fmt.Fprintln(e.out, "ev noack")
